@@ -876,7 +876,7 @@ func TestCheck(t *testing.T) {
 			"too few request pairs with the same credentials overlapped (review of the first in flight while the second was issued)")
 		r.Require(r.Counter("clusters_recreated_under_same_name") >= int64(ns/10), "too few clusters deleted and created again under the same name")
 		r.Require(r.Counter("authz_requests_with_uncacheable_attributes") >= int64(ns) && r.Counter("authz_requests_with_odd_characters") >= int64(ns), "too few requests with boundary attribute values")
-		r.Require(r.Counter("retry_cases_endpoint_became_unready_authn") >= int64(ns/30) && r.Counter("retry_cases_endpoint_became_unready_authz") >= int64(ns/30), "too few reviews were retried after the answering server had become unready")
+		r.Require(r.Counter("retry_cases_endpoint_became_unready_authn") >= int64(ns/50) && r.Counter("retry_cases_endpoint_became_unready_authz") >= int64(ns/50), "too few reviews were retried after the answering server had become unready")
 		r.Require(r.Counter("retry_cases_authn") >= int64(ns/12), "too few token reviews were retried after a retriable failure with the host moved in between")
 		r.Require(r.Counter("retry_cases") >= int64(ns/12) && r.Counter("retry_cases_impersonation") >= int64(ns/60),
 			"too few reviews were retried after a retriable failure with the host moved to another cluster in between")
